@@ -1216,10 +1216,16 @@ func metadataHeaders(headers map[string][]string, at time.Time, sizeLimit int) (
 			// Metadata is sent back as response headers. Request headers are
 			// always fit for that, the fields of a browser form upload are
 			// arbitrary bytes:
-			if !validHeaderField(hk, hv[0]) {
+			value := hv[0]
+			if len(hv) > 1 && strings.HasPrefix(hk, "X-Amz-Meta-") {
+				// Sent on several lines, which is another way of writing one
+				// header with a comma separated value (RFC 7230, 3.2.2):
+				value = strings.Join(hv, ",")
+			}
+			if !validHeaderField(hk, value) {
 				return meta, ErrorMessagef(ErrInvalidArgument, "metadata field %q cannot be stored as a header", hk)
 			}
-			meta[hk] = hv[0]
+			meta[hk] = value
 		}
 	}
 	meta["Last-Modified"] = formatHeaderTime(at)
